@@ -17,13 +17,16 @@ RULE = ("server streams as in C15 (redefinition, partial updates, kind mismatche
         "later callback, register a new one). An always-registered spy callback yields the raised events, which must equal (as a "
         "multiset, per message) the events an independent reference interpreter derives from consecutive mirror snapshots; the "
         "dispatch is then simulated on the spy's observed order to obtain, per callback, the exact invocations required; value and "
-        "state chains are checked for continuity and against the final view. non-trivial = a stream with >= 5 events and >= 3 "
+        "state chains are checked for continuity and against the final view. Every fourth stream ends with a callback that re-enters the "
+        "client (has another message for the same property processed while an event is being dispatched), every fourth with a "
+        "setBLOBVector that can only be applied in part (second element with a wrong size); for those tails only the chain oracle "
+        "applies. non-trivial = a stream with >= 5 events and >= 3 "
         "callbacks that were invoked; distinct = hash(stream, callback configuration)")
 ASSUMPTIONS = ["no order among the events of one message is demanded", "for BLOB values only 'changed => event' is demanded",
                "a callback registered while an event is being dispatched may or may not receive that event"]
 REQUIRED_EVENTS = ["streams", "events_raised", "callback_invocations_checked", "callbacks_removed_between_messages", "criteria_removals_matching_several",
                    "in_callback_self_removals", "in_callback_removals_of_later", "raising_callbacks_invoked", "coroutine_callbacks_invoked",
-                   "chains_checked"]
+                   "chains_checked", "messages_processed_from_inside_a_callback", "partially_applicable_messages"]
 
 QUICK_SHARDS = 4
 ETYPES = ["BaseEvent", "ValueUpdate", "StateUpdate", "DefinitionUpdate"]
@@ -278,6 +281,45 @@ async def run_stream(ctx, case):
         if sorted(live_ids()) != sorted(i for i in model_reg if i in uuids):
             ctx.violate("registered-callbacks-differ", f"message {k}: client has {sorted(live_ids())}, expected {sorted(model_reg)}", mcase, detail)
             return total_events, len(invoked)
+    # ---- two hostile tails; from here on only the chain oracle below applies (the reference interpreter is not consulted)
+    from indi.message import def_parts, one_parts
+    cur[0] = len(msgs)
+    if case["i"] % 4 == 1:
+        # (a) a callback that RE-ENTERS the client: while one event of a message is being dispatched it has another message for the
+        #     same property processed (what a synchronous answer to vector.submit() does on a loop-back / snooping transport)
+        client.process_message(M.DefTextVector(device="DR", name="PR", state="Idle", perm="rw",
+                                               children=(def_parts.DefText(name="R1", value="a"), def_parts.DefText(name="R2", value="b"))))
+        fired = []
+
+        def reenter(event):
+            if not fired:
+                fired.append(1)
+                client.process_message(M.SetTextVector(device="DR", name="PR", state="Alert",
+                                                       children=(one_parts.OneText(name="R1", value="n1"), one_parts.OneText(name="R2", value="n2"))))
+        client.onevent(callback=reenter, device="DR", vector="PR", event_type=rng.choice([E.StateUpdate, E.ValueUpdate, E.BaseEvent]))
+        try:
+            client.process_message(M.SetTextVector(device="DR", name="PR", state="Busy",
+                                                   children=(one_parts.OneText(name="R1", value="o1"), one_parts.OneText(name="R2", value="o2"))))
+        except Exception as e:
+            ctx.violate(f"process_message-raises:reentrant-callback:{type(e).__name__}", f"{e!r}", case)
+            return total_events, len(invoked)
+        if fired:
+            ctx.count("messages_processed_from_inside_a_callback")
+    if case["i"] % 4 == 3:
+        # (b) a message that can only be applied in part: the second BLOB of the vector declares a size its payload does not have
+        import base64
+        client.process_message(M.DefBLOBVector(device="DB", name="PB", state="Idle", perm="ro",
+                                               children=(def_parts.DefBLOB(name="B1"), def_parts.DefBLOB(name="B2"))))
+        good = base64.b64encode(b"first").decode()
+        try:
+            client.process_message(M.SetBLOBVector(device="DB", name="PB", state="Alert", children=(
+                one_parts.OneBLOB(name="B1", size=5, format=".a", value=good),
+                one_parts.OneBLOB(name="B2", size=999, format=".b", value=good))))
+        except Exception:
+            ctx.count("partially_applied_messages_that_raised")
+        ctx.count("partially_applicable_messages")
+    for _ in range(3):
+        await asyncio.sleep(0)
     # chains
     chains_v, chains_s = {}, {}
     for (mi, e) in spy:
